@@ -156,3 +156,105 @@ Proof.
     destruct (econcat (map (enc c t) s1)) as [z| | |]; cbn [ebind]; try reflexivity.
     now rewrite app_assoc.
 Qed.
+
+(* ---------- C18: skip and length peeking ---------- *)
+(* Decode::encoded_fixed_size: Some for the multi-byte integers/floats (impl_endians), bool,
+   and arrays of such; None for u8/i8 (impl_one_byte does not define it) and everything else *)
+Fixpoint fixed_size (t : ty) : option N :=
+  match t with
+  | TPrim B => if B =? 1 then None else Some B
+  | TBool => Some 1
+  | TArray n t' => match fixed_size t' with Some s => Some (s * n) | None => None end
+  | _ => None
+  end.
+
+(* Decode::skip: the default decodes and drops the value; arrays with a fixed element size
+   skip element by element *)
+Fixpoint skip (t : ty) : prog unit :=
+  match t with
+  | TArray n t' =>
+      match fixed_size (TArray n t') with
+      | Some _ => rep n (skip t') ;;; Ret tt
+      | None => dec t ;;; Ret tt
+      end
+  | _ => dec t ;;; Ret tt
+  end.
+
+Definition forget {A} (o : out A) : out unit :=
+  match o with OOk _ r => OOk tt r | OErr _ => OErr [] | OPanic => OPanic | ONoFuel => ONoFuel end.
+
+Lemma forget_bind A (p : prog A) known bs : forget (runo (p ;;; Ret tt) known bs) = forget (runo p known bs).
+Proof. rewrite runo_bind. destruct (runo p known bs); reflexivity. Qed.
+
+Lemma forget_rep_nat A B (c : prog A) (d : prog B) known :
+  (forall bs, forget (runo c known bs) = forget (runo d known bs)) ->
+  forall k bs, forget (runo (rep_nat k c) known bs) = forget (runo (rep_nat k d) known bs).
+Proof.
+  intros H. induction k as [|k IH]; intros bs; [reflexivity|]. cbn [rep_nat]. rewrite !runo_bind.
+  specialize (H bs).
+  destruct (runo c known bs) as [a r|r| |]; destruct (runo d known bs) as [b r'|r'| |]; cbn [forget] in H; try discriminate; try reflexivity.
+  injection H as <-. rewrite !runo_bind. specialize (IH r).
+  destruct (runo (rep_nat k c) known r) as [l r1|r1| |]; destruct (runo (rep_nat k d) known r) as [l' r1'|r1'| |];
+    cbn [forget] in IH; try discriminate; try reflexivity.
+  injection IH as <-. reflexivity.
+Qed.
+
+Lemma forget_oview A B (o : out A) (o' : out B) :
+  forget o = forget o' <-> forget (oview o) = forget (oview o').
+Proof. destruct o; destruct o'; cbn [oview forget]; split; auto. Qed.
+
+(* skipping advances exactly as far as decoding and fails exactly when decoding fails *)
+Theorem skip_is_decode t known : wf_ty t = true -> forall bs,
+  forget (runo (skip t) known bs) = forget (runo (dec t) known bs).
+Proof.
+  induction t; intros Hw bs; try (cbn [skip]; apply forget_bind).
+  (* TArray *)
+  cbn [skip]. destruct (fixed_size (TArray n t)) as [s|] eqn:Ef; [|apply forget_bind].
+  cbn [fixed_size] in Ef. destruct (fixed_size t) as [s'|] eqn:Et; [|discriminate].
+  cbn [wf_ty] in Hw. rewrite forget_bind.
+  assert (Hel: forall bs0, forget (runo (skip t) known bs0) = forget (runo (dec t) known bs0)) by (intros; now apply IHt).
+  assert (Hrep: forget (runo (rep n (skip t)) known bs) = forget (runo (rep n (dec t)) known bs)).
+  { rewrite !runo_rep. now apply forget_rep_nat. }
+  rewrite Hrep. clear Hrep.
+  destruct t; cbn [fixed_size] in Et; try discriminate.
+  - (* TBool elements: decoded element-wise *)
+    change (dec (TArray n TBool)) with (items <- rep n (dec TBool) ;; Ret (VSeq items)).
+    rewrite runo_bind. destruct (runo (rep n (dec TBool)) known bs); reflexivity.
+  - (* primitive elements: the array decoder reads in bulk *)
+    cbn [wf_ty] in Hw.
+    pose proof (bulk_array_is_elementwise B n known bs Hw) as Hb.
+    assert (E1: forget (runo (rep n (dec (TPrim B))) known bs) = forget (runo (x <- rep n (dec_prim B) ;; Ret (VSeq (map VN x))) known bs)).
+    { rewrite runo_bind, !runo_rep.
+      transitivity (forget (runo (rep_nat (N.to_nat n) (dec_prim B)) known bs)).
+      - apply forget_rep_nat. intros bs0. cbn [dec]. rewrite runo_bind. destruct (runo (dec_prim B) known bs0); reflexivity.
+      - destruct (runo (rep_nat (N.to_nat n) (dec_prim B)) known bs); reflexivity. }
+    rewrite E1. symmetry. apply forget_oview.
+    change (dec (TArray n (TPrim B))) with (x <- read (n * B) ;; Ret (VSeq (map VN (words B x)))). now rewrite Hb.
+  - (* nested fixed-size arrays *)
+    change (dec (TArray n (TArray n0 t))) with (items <- rep n (dec (TArray n0 t)) ;; Ret (VSeq items)).
+    rewrite runo_bind. destruct (runo (rep n (dec (TArray n0 t))) known bs); reflexivity.
+Qed.
+
+(* DecodeLength::len on the six collections (and tuples led by one): the compact count *)
+Definition peek_len (bs : list byte) : out N :=
+  match runo (dec_compact 4) true bs with OOk n _ => OOk n [] | OErr _ => OErr [] | o => o end.
+
+Theorem peek_len_correct k sz t l bs rest : wf (TColl k sz t) (VSeq l) = true ->
+  enc_spec (TColl k sz t) (VSeq l) = EOk bs -> peek_len (bs ++ rest) = OOk (N.of_nat (length l)) [].
+Proof.
+  intros Hw He. cbn [wf] in Hw. apply andb_prop in Hw as [Hw _]. apply andb_prop in Hw as [_ Hn].
+  change (enc spec_c (TColl k sz t) (VSeq l) = EOk bs) in He. cbn [enc] in He.
+  apply eapp_ok in He as (x & y & Hx & _ & ->).
+  rewrite (enc_count_spec _ Hn) in Hx. injection Hx as <-.
+  unfold peek_len. rewrite <- app_assoc, rt_compact by (apply okwidth4 || now apply u32_fits). reflexivity.
+Qed.
+
+(* a tuple led by a collection: the leading collection's count *)
+Theorem peek_len_tuple k sz t l b vb bs rest : wf (TPair (TColl k sz t) b) (VPair (VSeq l) vb) = true ->
+  enc_spec (TPair (TColl k sz t) b) (VPair (VSeq l) vb) = EOk bs -> peek_len (bs ++ rest) = OOk (N.of_nat (length l)) [].
+Proof.
+  intros Hw He. cbn [wf] in Hw. apply andb_prop in Hw as [Hw _].
+  change (enc spec_c (TPair (TColl k sz t) b) (VPair (VSeq l) vb) = EOk bs) in He. cbn [enc] in He.
+  apply eapp_ok in He as (x & y & Hx & _ & ->).
+  rewrite <- app_assoc. now apply (peek_len_correct k sz t l x).
+Qed.
